@@ -64,4 +64,50 @@ def fam_bytes(nmax=8):
     S6 = StructDef('By_enum', [Field(1, 'default', S('enum')), Field(2, 'default', S('double')), Field(3, 'default', ('map', S('enum'), S('double')))])
     return [{'sd': s, 'kinds': ['bytes'], 'params': {'bytes': ns}} for s in (S1, S2, S3, S4, S5, S6)]
 
-FAMILIES = {'bytes8': lambda: fam_bytes(8), 'bytes12': lambda: fam_bytes(12), 'scalar': fam_scalar, 'list': fam_list, 'map': fam_map}
+def pair(w, t, orders=3, reach=None):
+    d = {'w': w, 't': t, 'kinds': ['decmsg'], 'params': {'decmsg': [{'orders': orders}]}}
+    if reach:
+        d['reach'] = reach
+    return d
+
+def fam_evolve(orders=3):
+    W1f = lambda: [Field(1, 'default', S('i32')), Field(2, 'default', S('string')), Field(3, 'default', ('list', S('i16'))),
+                   Field(4, 'default', ('struct', LEAF, True)), Field(5, 'default', ('map', S('i8'), S('string'))), Field(6, 'optional', S('double'), ptr=True)]
+    W1 = StructDef('EvW1', W1f())
+    same = StructDef('EvSame', W1f())
+    minus = StructDef('EvMinus', [Field(1, 'default', S('i32')), Field(4, 'default', ('struct', LEAF, True))])
+    minusH = StructDef('EvMinusH', [Field(1, 'default', S('i32')), Field(4, 'default', ('struct', LEAF, True))], has_unknown=True)
+    plus = StructDef('EvPlus', W1f() + [Field(7, 'default', S('i64')), Field(9, 'optional', S('string'), ptr=True), Field(10, 'optional', ('list', S('string')))])
+    retyped = StructDef('EvRetyped', [Field(1, 'default', S('i64')), Field(2, 'default', S('binary')), Field(3, 'default', ('set', S('i16'))),
+                                      Field(4, 'default', ('map', S('i8'), S('i8'))), Field(5, 'default', ('struct', LEAF, True)), Field(6, 'default', S('i64'))], has_unknown=True)
+    renum = StructDef('EvRenum', [Field(11, 'default', S('i32')), Field(12, 'default', S('string')), Field(260, 'default', ('list', S('i16')))], has_unknown=True)
+    out = [pair(W1, same, orders), pair(W1, minus, orders), pair(W1, minusH, orders), pair(W1, plus, orders), pair(W1, retyped, orders), pair(W1, renum, orders)]
+    # unknown fields of every wire type nested inside known containers
+    extras = [S('bool'), S('i8'), S('i16'), S('i32'), S('i64'), S('double'), S('string'), ('struct', LEAF, True),
+              ('map', S('string'), S('i32')), ('set', S('i64')), ('list', S('string'))]
+    for n, x in enumerate(extras):
+        wi = StructDef('EvWIn%d' % n, [Field(1, 'default', S('i32')), Field(2, 'default', x), Field(3, 'default', S('i8'))])
+        ti = StructDef('EvTIn%d' % n, [Field(1, 'default', S('i32')), Field(3, 'default', S('i8'))], has_unknown=(n % 2 == 0))
+        wo = StructDef('EvWOut%d' % n, [Field(1, 'default', ('list', ('struct', wi, n % 3 == 0))), Field(2, 'default', ('map', S('i16'), ('struct', wi, True)))])
+        to = StructDef('EvTOut%d' % n, [Field(1, 'default', ('list', ('struct', ti, n % 3 == 0))), Field(2, 'default', ('map', S('i16'), ('struct', ti, True)))])
+        out.append(pair(wo, to, 2))
+    return out
+
+def fam_required():
+    out = []
+    for name, ids in (('RqLo', [0, 1, 63, 64, 65, 127]), ('RqHi', [128, 255, 256, 32767, 32768, 65534])):
+        w = StructDef(name + 'W', [Field(i, 'optional', S('i8'), ptr=True, name='F%d' % i) for i in ids])
+        t = StructDef(name + 'T', [Field(i, 'required', S('i8'), name='F%d' % i) for i in ids])
+        out.append(pair(w, t, 2, reach=['end', 'ok', 'missing']))
+    # required field with the wrong wire type does not count; nested required inside list / map / struct
+    wi = StructDef('RqInW', [Field(1, 'optional', S('i32'), ptr=True), Field(2, 'optional', S('string'), ptr=True)])
+    ti = StructDef('RqInT', [Field(1, 'required', S('i32')), Field(2, 'required', S('string'))])
+    ww = StructDef('RqNestW', [Field(1, 'default', ('list', ('struct', wi, True))), Field(2, 'default', ('map', S('i8'), ('struct', wi, True))), Field(3, 'optional', ('struct', wi, True))])
+    tt = StructDef('RqNestT', [Field(1, 'default', ('list', ('struct', ti, True))), Field(2, 'default', ('map', S('i8'), ('struct', ti, False))), Field(3, 'optional', ('struct', ti, True))])
+    out.append(pair(ww, tt, 2, reach=['end', 'ok', 'missing']))
+    wr = StructDef('RqTypeW', [Field(1, 'optional', S('i64'), ptr=True), Field(2, 'default', S('i8'))])
+    tr = StructDef('RqTypeT', [Field(1, 'required', S('i32')), Field(2, 'default', S('i8'))])
+    out.append(pair(wr, tr, 2, reach=['end', 'missing']))
+    return out
+
+FAMILIES = {'evolve': fam_evolve, 'evolve_full': lambda: fam_evolve(6), 'required': fam_required, 'bytes8': lambda: fam_bytes(8), 'bytes12': lambda: fam_bytes(12), 'scalar': fam_scalar, 'list': fam_list, 'map': fam_map}
